@@ -344,7 +344,8 @@ FORMAT_TABLES = {
     "ipv4": (["0.0.0.0", "255.255.255.255", "1.2.3.4", "10.0.0.1", "192.168.1.100", "9.99.199.249"],
              ["256.0.0.1", "1.2.3", "1.2.3.4.5", "01.2.3.4", "1.2.3.04", "1.2.3.4\n", "\n1.2.3.4", " 1.2.3.4", "1.2.3.4 ", "1..3.4", "1.2.3.-4", "\u0661.2.3.4", "1.2.3.4/24",
               "0x1.2.3.4", "1.2.3.", "", "1.2.3.4\r", "1.2.3.4\x00", "1.2.3.256", "1.2.3.4.", "1,2,3,4", "1.2.3.4\n\n"]),
-    "date": (["2020-02-29", "1999-12-31", "0001-01-01", "9999-12-31", "2000-02-29"],
+    "date": (["2020-02-29", "1999-12-31", "0001-01-01", "9999-12-31", "2000-02-29"] + ["2020-01-%02d" % d for d in range(1, 32)] + ["2021-%02d-15" % m for m in range(1, 13)]
+             + ["2021-%02d-30" % m for m in (1, 3, 4, 5, 6, 7, 8, 9, 10, 11, 12)] + ["1900-01-01", "2400-02-29", "0999-10-20"],
              ["2020-02-30", "2019-02-29", "20200101", "2020-W01-1", "2020-1-01", "2020-01-01\n", "2020-01-01T00:00:00", " 2020-01-01", "\uff12020-01-01", "2020-13-01", "",
               "2020-00-10", "2020-01-32", "1900-02-29", "2020-01-01 ", "2020/01/01", "+2020-01-01", "2020-001", "\u0662\u0660\u0662\u0660-01-01"]),
     "email": (["a@b", "@", "a@b@c", " @ ", "x@\n", "joe\nbloggs@example.com", "\n@", "a\r\n@b", "\u2028@x", "\x00@", "a" * 300 + "@b"], ["", "ab", "a.b", "\uff20", "\n", "a\nb"]),
